@@ -102,6 +102,10 @@ type Controller struct {
 	Ticks      int64
 	TickBudget int64 // 0 = unlimited
 	Yields     int64
+	// CallBudget bounds the number of intercepted system calls (0 = unlimited). A loop that
+	// re-opens or re-maps a file on every iteration ends in the real world only by accident
+	// (descriptor or mapping exhaustion); with a call budget it is reported as unbounded.
+	CallBudget int
 
 	// Trace of (thread, site) per scheduler step, if TraceOn.
 	TraceOn bool
@@ -339,6 +343,9 @@ func (c *Controller) before(site, op, arg, arg2 string) *Call {
 	}
 	call := &Call{Idx: c.Calls, Thread: tid, Site: site, Op: op, Arg: arg, Arg2: arg2}
 	c.Calls++
+	if c.CallBudget > 0 && c.Calls > c.CallBudget {
+		panic(BudgetExceeded{int64(c.Calls)})
+	}
 	if c.Plan != nil {
 		c.Plan(call)
 	}
